@@ -276,6 +276,18 @@ class FnVals:
         self._phi = {}
         self._promoted = {}
         self.param_mut = {}  # bb -> list of dict(argpos, target) for &mut args not rooted in a plain local
+        # blocks reachable from the entry (views leave dead copies behind when every exit of an inlined helper was jump-threaded):
+        # a definition in a dead block reaches nothing
+        live, stack = set(), [0]
+        while stack:
+            b = stack.pop()
+            if b in live:
+                continue
+            live.add(b)
+            for s_ in fn.succs(b):
+                if (b, s_) not in self.removed:
+                    stack.append(s_)
+        self._live = live
         self._build_defs()
 
     # ---- definition table -----------------------------------------------------------
@@ -361,7 +373,7 @@ class FnVals:
                 if d0 not in results:
                     results.append(d0)
             for p in fn.preds(b):
-                if p in visited or (p, b) in self.removed:
+                if p in visited or (p, b) in self.removed or p not in self._live:
                     continue
                 visited.add(p)
                 stack.append((p, len(fn.blocks[p]["stmts"]) + 1))
